@@ -102,15 +102,21 @@ def expected_read(sim, cfg, vis, op):
                                              for v in simv])
     its = sorted(set(op['it']))
     chosen, absent, earlier_only = {}, [], []
+    chk = bool(op.get('chk'))
+
+    def has(r, iit):
+        if chk:         # a checkpoint holds every variable on every level
+            return iit in sim.checkpoints.get(r, [])
+        return iit in outs[r].get(rl, [])
     for iit in its:
         if op.get('restart', -1) >= 0:
             r0 = op['restart']
-            cand = [r0] if (r0 in vis and iit in outs[r0].get(rl, [])) else []
+            cand = [r0] if (r0 in vis and has(r0, iit)) else []
         else:
-            cand = [r for r in vis if iit in outs[r].get(rl, [])]
+            cand = [r for r in vis if has(r, iit)]
         if cand:
             chosen[iit] = cand[-1]
-            if op.get('restart', -1) < 0:
+            if op.get('restart', -1) < 0 and not chk:
                 for r in vis:
                     iv = etsim.interval(outs[r])
                     if r > cand[-1] and iv and iv[0] <= iit <= iv[1]:
@@ -185,14 +191,17 @@ def check_returned(sim, cfg, op, opi, got, exp, viol, tag='', lossy=None):
                                     f'returned None for {an!r} it={iit} '
                                     f'which is on disk in restart {r}'})
                 return n_cmp
-            truth = sim.truth_array(ev, iit, rl, r)
+            truth = sim.truth_array(ev, iit, rl, r,
+                                    source='chk' if op.get('chk') else '3d')
             kind, msg = diff_kind(col[n], truth, ev, iit, rl, r)
             n_cmp += 1
-            if kind == 'wrong_restart' and lossy is not None:
+            if kind is not None and lossy is not None:
                 # a catalogue built while a file was unreadable lacks that
                 # restart's record of the iteration: the earlier restart's
                 # data for it is stale, not foreign
-                older = sim.truth_array(ev, iit, rl, None, all_restarts=True)
+                older = sim.truth_array(
+                    ev, iit, rl, None, all_restarts=True,
+                    source='chk' if op.get('chk') else '3d')
                 if any(r2 < r and np.array_equal(np.asarray(col[n]), a2)
                        for r2, a2 in older):
                     lossy.append('older_restart_served')
